@@ -17,7 +17,7 @@ use sim::prng::{Digest, Prng, hex};
 use sim::registry::{Dir, Registry, Role, SHAPES, Shape, TypeInfo};
 use sim::world::{Anchors, fresh_perblock_raw, guard, install_quiet_panic_hook};
 use std::sync::Arc;
-use std::sync::atomic::{AtomicU64, Ordering};
+use std::sync::atomic::{AtomicUsize, Ordering};
 
 fn die(msg: &str) -> ! {
     eprintln!("HARNESS-ERROR: {}", msg);
@@ -29,6 +29,12 @@ fn main() {
     match args.get(1).map(|s| s.as_str()) {
         Some("exec") => exec(&args[2..]),
         Some("threads") => threads(&args[2..]),
+        Some("c14") => {
+            if args.len() < 3 {
+                die("c14 <pi hex> (<label> <json>)...");
+            }
+            std::process::exit(sim::bcrypt::exec_lists(&args[2], &args[3..]));
+        }
         _ => die("usage: sim-miri exec [--grant] (<label> <json>)... | threads <seed> <threads> <ops> <mode> <families,..> [grant]"),
     }
 }
@@ -142,7 +148,7 @@ impl TOp {
     }
 }
 
-static STAMP: AtomicU64 = AtomicU64::new(0);
+static STAMP: AtomicUsize = AtomicUsize::new(0);
 
 fn call_shape(t: &TypeInfo, inst: *const u8, dir: Dir, shape: Shape, data: &[u8]) -> Result<Vec<u8>, String> {
     let f = t.call(dir).ok_or("unsupported direction")?;
@@ -216,17 +222,30 @@ fn threads(a: &[String]) {
     // its halves, if it has any); then perhaps a random one
     // every listed family: one combined instance nobody has used yet (first-use races) and one the main thread
     // has already pushed close to a small block-count threshold (state built "after the Nth block")
-    let mut wanted: Vec<(usize, Option<Role>, usize)> = Vec::new();
+    let mut wanted: Vec<(usize, Option<Role>, usize, Option<usize>)> = Vec::new();
     for &f in &fam_idx {
-        wanted.push((f, Some(Role::Both), 0));
-        wanted.push((f, Some(Role::Both), *rng.pick(&[14usize, 15, 15, 16, 30, 31, 62, 63])));
+        // build variants named for this family on the command line are all shared (alternately fresh and
+        // pre-used); without a restriction the variant of each instance is drawn at random
+        let named: Vec<usize> = (0..reg.families[f].variants.len()).filter(|&i| only_variants.iter().any(|v| v == reg.families[f].variants[i].variant)).collect();
+        if named.is_empty() {
+            wanted.push((f, Some(Role::Both), 0, None));
+            wanted.push((f, Some(Role::Both), *rng.pick(&[14usize, 15, 15, 16, 30, 31, 62, 63]), None));
+        } else {
+            for (k, &vi) in named.iter().enumerate() {
+                let pre = if k % 2 == 0 { 0 } else { *rng.pick(&[14usize, 15, 15, 16, 30, 31, 62, 63]) };
+                wanted.push((f, Some(Role::Both), pre, Some(vi)));
+            }
+            if named.len() == 1 {
+                wanted.push((f, Some(Role::Both), *rng.pick(&[14usize, 15, 15, 16, 30, 31, 62, 63]), Some(named[0])));
+            }
+        }
     }
     if reg.families[fam_idx[0]].split {
-        wanted.push((fam_idx[0], Some(*rng.pick(&[Role::Enc, Role::Dec])), *rng.pick(&[0usize, 15])));
+        wanted.push((fam_idx[0], Some(*rng.pick(&[Role::Enc, Role::Dec])), *rng.pick(&[0usize, 15]), None));
     }
-    for (fam, want_role, pre) in wanted {
+    for (fam, want_role, pre, want_variant) in wanted {
         let f = &reg.families[fam];
-        let vi = pick_variant(&mut rng, fam);
+        let vi = want_variant.unwrap_or_else(|| pick_variant(&mut rng, fam));
         let vs = &f.variants[vi];
         let role = if f.split { want_role.unwrap_or_else(|| *rng.pick(&[Role::Both, Role::Both, Role::Enc, Role::Dec])) } else { Role::Both };
         let ty = vs.ty(role).unwrap();
@@ -361,7 +380,7 @@ fn threads(a: &[String]) {
             let slot = slots.alloc(0);
             let mut events: Vec<(u64, u64, usize, usize, &'static str, Result<(), String>)> = Vec::new();
             for (k, op) in prog.iter().enumerate() {
-                let inv = STAMP.fetch_add(1, Ordering::Relaxed);
+                let inv = STAMP.fetch_add(1, Ordering::Relaxed) as u64;
                 let p = slots.ptr(slot);
                 let res: Result<(), String> = (|| match op {
                     TOp::NewUse { ty, key, dir, shape, data, expect } => {
@@ -401,7 +420,7 @@ fn threads(a: &[String]) {
                         if &got != expect { Err(format!("conversion of shared to {} {} got {} want {}", tt.name, dir.name(), hex(&got), hex(expect))) } else { Ok(()) }
                     }
                 })();
-                let ret = STAMP.fetch_add(1, Ordering::Relaxed);
+                let ret = STAMP.fetch_add(1, Ordering::Relaxed) as u64;
                 events.push((inv, ret, tid, k, op.kind(), res));
             }
             events
